@@ -2,7 +2,7 @@ use std::{
     fs,
     io::{self, Read, Write},
     os::unix::fs::PermissionsExt,
-    path::{Path, PathBuf},
+    path::{Component, Path, PathBuf},
     str::FromStr,
 };
 
@@ -120,9 +120,7 @@ impl Package {
 
         // pull every base directory name in the package and create the directory in advance
         for dir in dirs {
-            let dir_path = dest
-                .as_ref()
-                .join(Path::new(dir).strip_prefix("/").unwrap_or(dest.as_ref()));
+            let dir_path = extraction_path(dest.as_ref(), Path::new(dir))?;
             fs::create_dir_all(&dir_path)?;
         }
 
@@ -130,12 +128,7 @@ impl Package {
         // instead of reading each file entirely into memory (while the archive is also entirely in memory) before writing them
         for file in self.files()? {
             let file = file?;
-            let file_path = dest.as_ref().join(
-                file.metadata
-                    .path
-                    .strip_prefix("/")
-                    .unwrap_or(dest.as_ref()),
-            );
+            let file_path = extraction_path(dest.as_ref(), &file.metadata.path)?;
 
             let perms = fs::Permissions::from_mode(file.metadata.mode.permissions().into());
             match file.metadata.mode {
@@ -469,6 +462,27 @@ impl Package {
 
         Ok(())
     }
+}
+
+/// Map a path from the package onto the extraction directory.
+///
+/// The path is taken relative to `dest`, whether it is absolute (binary packages) or relative
+/// (source packages). It must not contain `..` components, which could lead out of `dest`.
+fn extraction_path(dest: &Path, path: &Path) -> Result<PathBuf, Error> {
+    let mut target = dest.to_path_buf();
+    for component in path.components() {
+        match component {
+            Component::RootDir | Component::CurDir => {}
+            Component::Normal(part) => target.push(part),
+            Component::ParentDir | Component::Prefix(_) => {
+                return Err(Error::InvalidDestinationPath {
+                    path: path.to_string_lossy().to_string(),
+                    desc: "path would be extracted outside of the target directory",
+                });
+            }
+        }
+    }
+    Ok(target)
 }
 
 #[derive(Clone, Debug, PartialEq)]
